@@ -211,10 +211,21 @@ pub fn run(ctx: &Ctx) -> Report {
     let mut acc_l = crate::props::sweep(lens.into_par_iter(), judge);
     acc_l.nontrivial += n_lens;
     acc = acc.merge(acc_l);
+    // the builder's FINGERPRINT after a caught panic elsewhere in the process (Op::Poison): still the RFC CRC
+    let mut poisoned: Vec<Case> = Vec::new();
+    for k in 0..5u8 {
+        for body in [vec![], vec![Op::Typed(Kind::Software, b"stun".to_vec())], vec![Op::Typed(Kind::Username, b"ab".to_vec()), Op::Sha1(0)], vec![Op::Raw(0xFF00, vec![9, 8, 7]), Op::Sha256(0)]] {
+            let mut ops = vec![Op::Poison(k)];
+            ops.extend(body);
+            ops.push(Op::Fp);
+            poisoned.push(Prog { class: k % 4, method: 1, tid: 0x7172_7374_7576_7778_797A_7B7C, ops }.to_case("builder_prog"));
+        }
+    }
+    acc = acc.merge(crate::props::sweep(poisoned.into_par_iter(), judge));
     Report {
         acc,
         exhaustive: true,
-        rule: format!("(each corrupted copy is parsed right after its uncorrupted original) 10 bodies (one of ~300 bytes, two whose values read as sealing-attribute headers or carry a relayed fingerprinted message; thorough: one more of ~1150 bytes) x 4 sealing combinations ending in FINGERPRINT x 4 classes, built by the real builder; on each: the builder's CRC value vs the reference relation; every single-byte substitution (255 per byte, includes all single-bit flips); every burst of width 2..=32 at every start bit with both end bits set (all interior patterns up to width {full_w}, 3 shapes above); ~20 plausible alternative CRC values (byte-swapped, complemented, without the XOR constant, rotated, over other ranges or length fields); large messages with the FINGERPRINT starting at 65516..=65544 and around 256 / 4096 / 32768 x 2 classes with a stated subset of corruptions (every bit of the header, of the last 12 bytes and of every 509th byte, every value of the length-field and CRC bytes); the builder value for typed text attributes of every length 0..=763 followed by a FINGERPRINT (typed and after into_owned()); distinct_nontrivial = fingerprinted messages"),
+        rule: format!("(each corrupted copy is parsed right after its uncorrupted original) 10 bodies (one of ~300 bytes, two whose values read as sealing-attribute headers or carry a relayed fingerprinted message; thorough: one more of ~1150 bytes) x 4 sealing combinations ending in FINGERPRINT x 4 classes, built by the real builder; on each: the builder's CRC value vs the reference relation; every single-byte substitution (255 per byte, includes all single-bit flips); every burst of width 2..=32 at every start bit with both end bits set (all interior patterns up to width {full_w}, 3 shapes above); ~20 plausible alternative CRC values (byte-swapped, complemented, without the XOR constant, rotated, over other ranges or length fields); large messages with the FINGERPRINT starting at 65516..=65544 and around 256 / 4096 / 32768 x 2 classes with a stated subset of corruptions (every bit of the header, of the last 12 bytes and of every 509th byte, every value of the length-field and CRC bytes); the builder value after a caught panic elsewhere in the process (an application attribute panicking inside add_fingerprint / add_message_integrity / build / write_into / into_owned); the builder value for typed text attributes of every length 0..=763 followed by a FINGERPRINT (typed and after into_owned()); distinct_nontrivial = fingerprinted messages"),
         bounds: json!({"messages": n_msgs, "burst_exhaustive_width": full_w, "burst_max_width": 32}),
         assumptions: vec!["mutants the reference decoder accepts (FINGERPRINT dissolved into other well-formed attributes) fall under C02, not C09".into()],
         ..Default::default()
@@ -257,6 +268,30 @@ fn mutant_case(m: &[u8], b: Vec<u8>, tag: &str) -> Case {
 pub fn judge(case: &Case, acc: &mut Acc) {
     acc.evaluations += 1;
     let buf = &case.data;
+    if case.op == "builder_prog" {
+        // a builder program (possibly with Op::Poison): build it, then judge its bytes as a builder value
+        let p = Prog::from_case(case);
+        match crate::props::c03::build_prog(&p) {
+            Ok(built) if built.results.iter().all(|r| r.is_ok()) => {
+                let mut inner = Case::new("builder_value", built.bytes);
+                inner.text = case.text.clone();
+                let mut local = Acc::default();
+                judge(&inner, &mut local);
+                // re-home the findings on the program, so that the replay runs the program again
+                for (_, (mut v, n)) in std::mem::take(&mut local.violations) {
+                    v.replay = crate::props::in_replay(case);
+                    for _ in 0..n {
+                        acc.violation(v.clone());
+                    }
+                }
+                let rest = std::mem::take(&mut local);
+                let a0 = std::mem::take(acc);
+                *acc = a0.merge(rest);
+            }
+            _ => acc.outcome("builder program not runnable"),
+        }
+        return;
+    }
     match case.op.as_str() {
         "builder_value" => {
             acc.validated += 1;
